@@ -87,4 +87,4 @@ contract(C + "build_decay_chains", types={"mother": "str", S: "list|tuple|set"},
                   "forall(lambda p: implies(0 <= p < llen(dget(d, 'fs')), same(_seq[p][1], daughters(dm)[p].children[0].value)))"],
                  "modifies": ["dget(d, 'fs')"], "types": {"d": "dict", "info": "list"}},
          },
-         returns="dict", properties=[])   # WIP
+         returns="dict", properties=["C09", "C08"])
